@@ -36,6 +36,12 @@ func updateMapAppendFunc(t *tType) {
 		t.AppendFunc = appendMapAnyAny
 		return
 	}
+	if t.K.T == tDOUBLE {
+		// the predefined funcs range over the map as map[uint64]V. float64 keys hash
+		// differently from uint64, which breaks the iteration of a growing map.
+		t.AppendFunc = appendMapAnyAny
+		return
+	}
 	f, ok := mapAppendFuncs[struct{ k, v ttype }{k: t.K.T, v: t.V.T}]
 	if ok {
 		t.AppendFunc = f
